@@ -56,10 +56,15 @@ def rule_m1(ctx):
             and isinstance(t.ops[0], ast.In) and "precomputed" in dotted(t)
 
     def is_len0(t):
-        return isinstance(t, ast.Compare) and len(t.ops) == 1 \
-            and isinstance(t.ops[0], (ast.Eq, ast.LtE)) \
-            and dotted(t.left) == "length" \
-            and const_value(t.comparators[0]) == 0
+        # `length == 0` / `length <= 0`, written either way round
+        if not (isinstance(t, ast.Compare) and len(t.ops) == 1):
+            return False
+        a, b, op = t.left, t.comparators[0], t.ops[0]
+        if dotted(a) == "length" and const_value(b) == 0:
+            return isinstance(op, (ast.Eq, ast.LtE))
+        if dotted(b) == "length" and const_value(a) == 0:
+            return isinstance(op, (ast.Eq, ast.GtE))
+        return False
 
     classes = {"memo": 0, "base": 0, "merged": 0, "exact-length": 0}
     bad = {}
